@@ -24,6 +24,7 @@ class Monitor:
         self.init_calls = 0
         self.snaps = []            # deep (position, cost, fitness) snapshots: [0] after init, [k] after cycle k
         self.pool_ops = []         # {"kind", "submitted", "gathered", "perm"}
+        self.pool_execs = []       # {"submitted", "completed": completion order of the futures} per executor
         self.greedy = []           # (old_sorted, new_sorted, result) of pooled/serial _greedy_select_population
         self.generate = []         # (n_requested, n_returned) of _generate_agents
         self.generated_init = []   # (.., positions) of the _generate_agents calls made while initialising
@@ -105,6 +106,32 @@ def _get_pool_results(executors):
 
 
 _orig_get_pool_results = None
+_orig_get_pool_executor = None
+
+
+def _get_pool_executor_observing(mode, n_workers=None):
+    """the repository's own executor, with submit() wrapped so that the COMPLETION order of the futures is recorded
+    independently of the order in which the library later gathers the results"""
+    ex = _orig_get_pool_executor(mode, n_workers)
+    m = CUR.mon
+    if m is None:
+        return ex
+    op = {"submitted": 0, "completed": [], "phase": m.phase}
+    orig_submit = ex.submit
+
+    def submit(fn, *a, **k):
+        f = orig_submit(fn, *a, **k)
+        idx = op["submitted"]
+        op["submitted"] += 1
+        f.add_done_callback(lambda _f, i=idx: op["completed"].append(i))
+        return f
+    try:
+        ex.submit = submit
+        with m.lock:
+            m.pool_execs.append(op)
+    except Exception:
+        pass
+    return ex
 
 
 def _get_pool_results_observing(executors):
@@ -203,6 +230,9 @@ def install():
             setattr(cls, "_init_population", _wrap_init_population(cls.__dict__["_init_population"]))
     _orig_get_pool_results = A.get_pool_results
     A.get_pool_results = _get_pool_results_observing
+    global _orig_get_pool_executor
+    _orig_get_pool_executor = A.get_pool_executor
+    A.get_pool_executor = _get_pool_executor_observing
     OptimizationAbstract._greedy_select_population = _wrap_greedy_population(
         OptimizationAbstract.__dict__["_greedy_select_population"])
     OptimizationAbstract._generate_agents = _wrap_generate_agents(OptimizationAbstract.__dict__["_generate_agents"])
